@@ -226,6 +226,15 @@ def run_selftest(prop: str, repo_root: str, jobs: int = 16, only: Optional[List[
       whole.append({'id': f'whole-repo:{kind}', 'kind': 'neutral', 'status': status, 'detail': detail})
       if status != 'silent':
         failures.append(f'whole-repo:{kind}(neutral):{status}:{detail[:160]}')
+    # behaviour-preserving refactors written by independent agents: no VIOLATION on any of them (a withheld verdict is allowed)
+    from fjsa.selftest import refactors
+    for rid, _, status, detail in refactors.run([prop], repo_root, jobs):
+      if status == 'skipped':
+        continue
+      whole.append({'id': f'refactor:{rid}', 'kind': 'neutral', 'status': 'silent' if status in ('silent', 'withheld') else status,
+                    'detail': ('verdict withheld: ' + detail) if status == 'withheld' else detail})
+      if status == 'false-alarm':
+        failures.append(f'refactor:{rid}(neutral):{status}:{detail[:160]}')
     results = results + whole
   return {
       'mutants': len([r for r in results if r['kind'] == 'break']),
